@@ -3,10 +3,11 @@ from __future__ import annotations
 
 import collections
 import os
+from pathlib import Path
 
 import corr_config as CC
 import hookrun as H
-from common import rng
+from common import has_surrogate, rng
 
 ID = "C11"
 PROP_FILES = ["C11"]
@@ -26,6 +27,7 @@ def correspondence(ctx):
     return [
         CC.corr_parse(m, rng("c11-parse"), ctx.scale(2500, 80000) * k),
         CC.corr_pieces(m, rng("c11-pieces"), ctx.scale(1500, 40000) * k),
+        corr_writer(m, rng("c11-writer"), ctx.scale(1500, 40000) * k),
     ]
 
 
@@ -38,6 +40,85 @@ def escape(m: str) -> str:
 
 
 MSG_CHARS = ['a', 'b', ' ', '"', '\\', '#', '|', "'", '\t', '\x0b', '\x0c', '\x1c', '\x1d', '\x1e', '\x85', ' ', ' ', '\r', 'é', '　', '\x00', '~', '*', '$', '﻿', '😀']
+
+
+TOK_CHARS = ['a', 'b', 'z', '*', '?', '[', ']', '/', '.', '-', '~', '"', "'", '\\', '|', '#', '$', ':', 'é', '\x00', '😀', '=', '{', '}']
+SPACES = [' ', '\t', '\x0b', '\x0c', '\x1c', '\x85', '\u2003', '\u3000']
+DIRECTIVES = ["ask", "deny", "ask-redirect", "deny-redirect", "ask-mcp", "deny-mcp", "after", "after-mcp", "allow", "allow-redirect", "allow-mcp"]
+
+
+def gen_rule(r):
+    """(directive, tokens, exact, message): mostly well-formed, sometimes not (empty token, blank inside a token, trailing | or ")"""
+    d = r.pick(DIRECTIVES)
+    toks = []
+    for _ in range(r.randint(1, 3)):
+        if r.chance(0.5):
+            toks.append(r.pick(["git", "push", "rm", "-rf", "*", "x?", "[ab]c", "/tmp/x", "mcp__a__*", "'q'", 'a"b', "é", "~", "~/bin/t", "~root/x", "~/a://b", "**", "a|b", '"q"', "x|", 'y"', "#c", "|"]))
+        else:
+            toks.append("".join(r.pick(TOK_CHARS) for _ in range(r.randint(1, 5))))
+    k = r.random()
+    if k < 0.04:
+        toks[r.randrange(len(toks))] = ""
+    elif k < 0.08:
+        i = r.randrange(len(toks))
+        toks[i] = toks[i] + r.pick(SPACES) + "x"
+    elif k < 0.1:
+        toks = []
+    exact = d in ("ask", "deny", "allow") and r.chance(0.3)
+    msg = None if d.startswith("allow") or r.chance(0.2) else "".join(r.pick(MSG_CHARS) for _ in range(r.randint(0, 8)))
+    return d, toks, exact, msg
+
+
+def py_is_space(c):
+    return c.isspace()
+
+
+def py_wf(toks, exact, msg):
+    """RT.WfPat, written independently"""
+    if not toks or any((not t) or any(py_is_space(c) for c in t) for t in toks):
+        return False
+    last = " ".join(toks)[-1]
+    if not exact and last == "|":
+        return False
+    if not exact and msg is None and last == '"':
+        return False
+    return True
+
+
+def py_render(d, toks, exact, msg):
+    return d + " " + " ".join(toks) + (" |" if exact else "") + ("" if msg is None else ' "' + escape(msg) + '"')
+
+
+def expected_pattern(d, toks, home):
+    """what the parser stores: tilde tokens expanded for command and redirect rules, text as written otherwise"""
+    if d in ("after", "after-mcp", "allow-mcp", "ask-mcp", "deny-mcp"):
+        return " ".join(toks)
+    return " ".join((home + t[1:]) if ((t == "~" or t.startswith("~/")) and "://" not in t) else t for t in toks)
+
+
+def corr_writer(model, r, n):
+    """the writer of the round-trip theorems (RT.renderLine), its well-formedness predicate (RT.wfPatB) and the model's
+    reading of the written line, against the harness writer, an independent predicate and the real parse_config"""
+    from dippy.core.config import parse_config
+
+    acc = CC.Acc("rule writer (RT.renderLine / RT.wfPatB) and parse_config on written lines")
+    penv = CC.penv_json()
+    items = []
+    for _ in range(n):
+        d, toks, exact, msg = gen_rule(r)
+        if has_surrogate("".join(toks) + (msg or "")):
+            continue
+        items.append((d, toks, exact, msg))
+    reps = model.batch([{"op": "renderline", "d": d, "tokens": toks, "exact": exact, "msg": msg, "penv": penv} for d, toks, exact, msg in items])
+    for (d, toks, exact, msg), rep in zip(items, reps):
+        line = py_render(d, toks, exact, msg)
+        wf = py_wf(toks, exact, msg)
+        try:
+            parsed = CC.cfg_to_json(parse_config(line))
+        except Exception as e:  # noqa: BLE001
+            parsed = {"raised": type(e).__name__}
+        acc.case([d, toks, exact, msg], {"line": line, "wf": wf, "parsed": parsed}, rep, nontrivial=wf, tag=("wf:" if wf else "illformed:") + d, sample={"line": line[:100], "wf": wf})
+    return acc.result()
 
 
 def search(ctx):
@@ -102,12 +183,13 @@ def search(ctx):
                 vios.append({"input": {"config": a + "\n" + b}, "observed": {"whole": x, "per_line_merged": y}, "required": "each line is interpreted independently of its neighbours", "oracle": "line-local"})
         except Exception as e:  # noqa: BLE001
             vios.append({"input": {"config": a + "\n" + bad + "\n" + b}, "observed": {"exception": repr(e)}, "required": "parsing config text never fails as a whole", "oracle": "total"})
-        # (c) round trip
-        d = r.pick(["ask", "deny", "ask-redirect", "deny-redirect", "ask-mcp", "deny-mcp", "after", "after-mcp", "allow", "allow-redirect", "allow-mcp"])
-        pat = " ".join(r.pick(["git", "push", "rm", "-rf", "*", "x?", "[ab]c", "/tmp/x", "mcp__a__*", "'q'", "a\"b", "é"]) for _ in range(r.randint(1, 3)))
-        exact = d in ("ask", "deny", "allow") and r.chance(0.3)
-        msg = None if d.startswith("allow") or r.chance(0.2) else "".join(r.pick(MSG_CHARS) for _ in range(r.randint(0, 8)))
-        line = d + " " + pat + (" |" if exact else "") + ("" if msg is None else ' "' + escape(msg) + '"')
+        # (c) round trip: every well-formed rule (RT.WfPat, evaluated by the independent py_wf) is read back as written
+        d, toks, exact, msg = gen_rule(r)
+        if not py_wf(toks, exact, msg) or has_surrogate("".join(toks) + (msg or "")):
+            stats["roundtrip_illformed_skipped"] += 1
+            continue
+        pat = expected_pattern(d, toks, str(Path.home()))
+        line = py_render(d, toks, exact, msg)
         stats["roundtrip_checks"] += 1
         try:
             cfg = P(line)
